@@ -15,5 +15,5 @@ def run(ctx, replay, generic):
                    "over LocalFileSystem; DavJudge threads the model tree and requires that the request sent is the one the call denotes (method, target, Destination, "
                    "Depth, Overwrite, content, PROPFIND body), that the call fails iff the server refused, and that Stat / ReadDir / Open return exactly the tree's content, "
                    "each member once",
-                   checks_c10._mut, ["hostile"] if ctx.quick() else ["hostile", "plain"],
+                   checks_c10._mut, ["hostile", "webby"] if ctx.quick() else ["hostile", "webby", "plain"],
                    ["in-memory FileSystem double; in-process transport", "TLC and the CommunityModules Json reader"], more=checks_clihist)
